@@ -568,7 +568,7 @@ static void configure(Solver::IterativeSolver<VT>& s, const vj::Value& g)
   s.set_plot_mode(Solver::PlotMode::none);
 }
 
-template<class VT> vj::Value run_scenarios(const vj::Value& c, Built<VT>& B, const System& S);
+template<class VT> vj::Value run_scenarios(const vj::Value& c, Built<VT>& B, const System& S, MatT& live, const std::function<bool(Built<VT>&)>& rebuild);
 
 vj::Value run_case(const vj::Value& c)
 {
@@ -583,18 +583,55 @@ vj::Value run_case(const vj::Value& c)
     GlobalSystem G(S); g_gate = &G.gate;
     Built<GVecT> B;
     if(!build_global(B, sname, pname, G, omega)) { vj::Value r = vh::ok(); r["skip"] = true; return r; }
-    vj::Value res = run_scenarios<GVecT>(c, B, S);
+    std::function<bool(Built<GVecT>&)> rebuild = [&](Built<GVecT>& b2) { return build_global(b2, sname, pname, G, omega); };
+    vj::Value res = run_scenarios<GVecT>(c, B, S, G.mat.local(), rebuild);
     B = Built<GVecT>();      // the solver refers to the global containers: destroy it first
     g_gate = nullptr;
     return res;
   }
   Built<VecT> B;
   if(!build(B, sname, pname, S, omega)) { vj::Value r = vh::ok(); r["skip"] = true; return r; }
-  return run_scenarios<VecT>(c, B, S);
+  std::function<bool(Built<VecT>&)> rebuild = [&](Built<VecT>& b2) { return build(b2, sname, pname, S, omega); };
+  return run_scenarios<VecT>(c, B, S, S.mat, rebuild);
+}
+
+// second set of values on the same pattern (not a multiple of the first): every off-diagonal entry is scaled by an
+// entry-specific factor in [0.5, 1.5) (symmetric kinds: symmetric factors), the diagonal is recomputed with the same
+// dominance rule; rows that carry the unit rows of the filter stay unit rows
+static void updated_values(const System& S, const std::string& kind, double delta, bool raw, System& U)
+{
+  const Index n = S.n;
+  const bool symm = (kind == "spd" || kind == "spdg" || kind == "ispd");
+  U.n = n; U.a = S.a; U.fidx = S.fidx; U.fval = S.fval; U.pat = S.pat;
+  std::vector<char> unitrow(n, 0);
+  if(!raw) for(Index q : S.fidx) unitrow[q] = 1;
+  for(Index i = 0; i < n; ++i)
+  {
+    if(unitrow[i]) continue;
+    double sum = 0.0;
+    for(Index j = 0; j < n; ++j)
+    {
+      if(j == i || !S.pat[i * n + j]) continue;
+      Index lo = symm ? std::min(i, j) : i, hi = symm ? std::max(i, j) : j;
+      Rng h(std::uint64_t(lo) * 7919u + std::uint64_t(hi) * 104729u + 13u);
+      U.a[i * n + j] = S.a[i * n + j] * (0.5 + h.uni());
+      sum += std::fabs(U.a[i * n + j]);
+    }
+    U.a[i * n + i] = sum * (1.0 + delta) + delta + 0.25;
+  }
+  U.af = U.a;
+  for(Index q : U.fidx) for(Index j = 0; j < n; ++j) U.af[q * n + j] = (j == q ? 1.0 : 0.0);
+  double f = 0.0; for(double v : U.a) f += v * v; U.normF = std::sqrt(f);
+}
+// write the values of the dense description into the live CSR matrix (same pattern)
+static void write_values(MatT& m, const System& U)
+{
+  DT* v = m.val(); Index p = 0;
+  for(Index i = 0; i < U.n; ++i) for(Index j = 0; j < U.n; ++j) if(U.pat[i * U.n + j]) v[p++] = U.a[i * U.n + j];
 }
 
 template<class VT>
-vj::Value run_scenarios(const vj::Value& c, Built<VT>& B, const System& S)
+vj::Value run_scenarios(const vj::Value& c, Built<VT>& B, const System& S, MatT& live, const std::function<bool(Built<VT>&)>& rebuild)
 {
   const std::string scen = c["scen"].as_str(), mkind = c["mkind"].as_str();
   const Index n = S.n;
@@ -659,6 +696,41 @@ vj::Value run_scenarios(const vj::Value& c, Built<VT>& B, const System& S)
       Prev q;
       run(mode == "apply" ? "correct" : "apply", mode == "apply" ? x0 : garbage2, b, q, "other", nullptr);
     }
+  }
+  else if(scen == "update")
+  {
+    // history: [init_symbolic; init_numeric] solve; values updated in place; done_numeric; init_numeric; solve; a fresh
+    // solver object on the new values; done; init; solve; values back; done; init; solve
+    const std::string mode = c["mode"].as_str();
+    const bool raw = c.has("rawmat") && c["rawmat"].as_bool();
+    System U; updated_values(S, mkind, c["delta"].as_real(), raw, U);
+    std::vector<LD> inv2; bool have_inv2 = inverse_ld(U, inv2);
+    auto runx = [&](Built<VT>& Bx, const System& Sx, const std::vector<LD>* ix, Prev& prev, const std::string& tag)
+    {
+      vj::Value d = vj::Value::object(); d["tag"] = tag;
+      vj::Value T = one_solve(c, Bx, Sx, mode, mode == "apply" ? garbage1 : x0, mode == "apply" ? bdef : b, ix, nullptr, prev, tag, d);
+      traces.push(T); diags.push(d);
+    };
+    Prev p1; runx(B, S, have_inv ? &inv : nullptr, p1, "upd_first");
+    write_values(live, U);
+    B.solver->done_numeric();
+    B.solver->init_numeric();
+    Prev p2; runx(B, U, have_inv2 ? &inv2 : nullptr, p2, "upd_numeric");
+    {
+      Built<VT> F;
+      if(rebuild(F))
+      {
+        configure(*F.solver, c["cfg"]);
+        F.solver->init();
+        runx(F, U, have_inv2 ? &inv2 : nullptr, p2, "upd_fresh");      // must be bitwise equal to upd_numeric
+        F.solver->done();
+      }
+    }
+    B.solver->done(); B.solver->init();
+    runx(B, U, have_inv2 ? &inv2 : nullptr, p2, "upd_reinit");
+    write_values(live, S);
+    B.solver->done(); B.solver->init();
+    runx(B, S, have_inv ? &inv : nullptr, p1, "upd_full");              // the first system again: bitwise equal to upd_first
   }
   else if(scen == "exact")
   {
